@@ -55,6 +55,7 @@ FLOORS = {
         # faithful non-trivial round trips per family: a tree that refuses (nearly) everything must not be reported as held
         "faithful/scalar": 120, "faithful/array-equal": 100, "faithful/array-ragged": 100, "faithful/array-empty": 40, "faithful/dict": 15,
         "faithful/flags": 150, "faithful/nested": 8, "faithful/str": 25,
+        "faithful/array-ragged as list": 30, "faithful/array-ragged as ndarray": 60, "faithful/array-equal as list": 25,
         "faithful/layout-fortran": 8, "faithful/layout-transposed-view": 8, "faithful/layout-strided-view": 15, "faithful/layout-reversed-view": 15,
     },
     "thorough": {
@@ -65,6 +66,7 @@ FLOORS = {
         "hook:Database.writeToDB": 600, "hook:Database.load": 400,
         "faithful/scalar": 1800, "faithful/array-equal": 1500, "faithful/array-ragged": 1500, "faithful/array-empty": 600, "faithful/dict": 200,
         "faithful/flags": 2000, "faithful/nested": 200, "faithful/str": 400,
+        "faithful/array-ragged as list": 400, "faithful/array-ragged as ndarray": 800, "faithful/array-equal as list": 300,
         "faithful/layout-fortran": 100, "faithful/layout-transposed-view": 100, "faithful/layout-strided-view": 200, "faithful/layout-reversed-view": 200,
     },
 }
@@ -791,6 +793,8 @@ def judge(rec, path, col, meta, outcome, witness):
     if not D:
         if any(x is not None for x in col):
             rec.hit("faithful/" + meta["family"])
+            if meta["family"].startswith("array-") and meta.get("container") in ("list", "tuple", "ndarray", "mixed"):
+                rec.hit("faithful/%s as %s" % (meta["family"], meta["container"]))  # a tree refusing e.g. every ragged list must not read "held"
             for how in sorted(set(meta.get("layouts") or [])):
                 rec.hit("faithful/layout-" + how)
         return "same"
